@@ -242,13 +242,13 @@ def appended_source(ex, st, rec, before, lo, hi, strand, sid):
     from pyvc.symex import Unsupported
     shown = last_feature(ex.models.feats_term(st, st.get(rec, "features")))
     if shown is None:
-        raise Unsupported("the feature table is not shown as an append of one feature")
+        return None      # (the table is not shown as an append of one feature: the clause is skipped, and reported as such)
     b_, t_, lo_, hi_, sd_, q_ = shown
     named = quals_get(q_, "plasmid")
     if named is None:
         if q_.op == "app" and str(q_.args[0]).startswith("quals:"):
             return tm.FALSE      # the appended feature shows its qualifiers, and no `plasmid` entry among them: it names nothing
-        raise Unsupported("the qualifiers of the appended feature are not shown")
+        return None
     return tm.and_(tm.eq(b_, before), tm.eq(t_, tm.S("source")), tm.eq(lo_, lo), tm.eq(hi_, hi), tm.eq(sd_, strand),
                    tm.eq(named, sid))
 
